@@ -97,7 +97,7 @@ func (k Keeper) DistributeReward(ctx context.Context) error {
 			return err
 		}
 
-		power := math.LegacyNewDec(voteInfo.Validator.Power).Quo(math.LegacyNewDec(totalPower))
+		power := math.LegacyNewDec(voteInfo.Validator.Power).QuoTruncate(math.LegacyNewDec(totalPower))
 		if !pool.Gas.IsZero() {
 			share := math.LegacyNewDecFromBigInt(pool.Gas.BigInt()).MulTruncate(power).TruncateInt()
 			if !share.IsZero() {
